@@ -494,6 +494,42 @@ def nocpukinds_case(rng, name):
     return c
 
 
+WORD_RELATIONS = {           # (word of a, word of b) before shifting
+    "eq": (0x5, 0x5), "sub": (0x1, 0x5), "sup": (0x5, 0x1), "dis": (0x2, 0x4),
+    "ovl": (0x3, 0x6), "ea": (0x0, 0x4), "eb": (0x2, 0x0), "ee": (0x0, 0x0),
+}
+
+
+def wordwise_cases(nwords, rng, infinite=(False,), sample=None):
+    """two registrations whose cpusets are built 64-bit word by word: in every word the two sets are equal /
+    included / containing / disjoint / overlapping / one or both empty, in every order, so that every branch of
+    the word loop of hwloc_bitmap_compare_inclusion is taken with every result-so-far (and the infinite tails);
+    then get_by_cpuset on both sets, their union and their intersection"""
+    rels = sorted(WORD_RELATIONS)
+    combos = list(itertools.product(rels, repeat=nwords))
+    if sample is not None and sample < len(combos):
+        combos = rng.sample(combos, sample)
+    for combo in combos:
+        for ia in infinite:
+            for ib in infinite:
+                a = b = 0
+                for w, r in enumerate(combo):
+                    wa, wb = WORD_RELATIONS[r]
+                    sh = rng.choice([0, 1, 29, 60, 61])
+                    a |= ((wa << sh) & (2 ** 64 - 1)) << (64 * w)
+                    b |= ((wb << sh) & (2 ** 64 - 1)) << (64 * w)
+                mask = (1 << (64 * nwords)) - 1
+                sa = BS(~a & mask, True) if ia else BS(a)
+                sb = BS(~b & mask, True) if ib else BS(b)
+                nb = rng.choice([64 * nwords, 64 * nwords + 8]) if nwords < 3 else rng.choice([192, 200])
+                lines = ["case w%d_%s_%d%d %d" % (nwords, "_".join(combo), ia, ib, nb)]
+                lines.append(reg_line(sa, 1, 0, [("a", "1")]))
+                lines.append(reg_line(sb, 2, 0, [("b", "2")]))
+                for q in (sa, sb, sa.union(sb), sa.inter(sb), sa.diff(sb), sb.diff(sa)):
+                    lines.append("getby %s 0" % q.show())
+                yield lines
+
+
 def malformed_case(rng, name, nbpus=8):
     lines = ["case %s %d" % (name, nbpus)]
     lines.append(reg_line(BS(rng.getrandbits(nbpus) | 1), 1, 0, [("a", "1")]))
